@@ -175,7 +175,16 @@ func (r *BaseOperationRepo) getDeletedOperations() (map[string]*types.Operation,
 }
 
 func (r *BaseOperationRepo) initJsonKey(key string) error {
-	err := r.state.Set(key, []byte("{}"))
+	// init only a missing key, the pending operations and the tombstones must survive a restart of the node
+	bz, err := r.state.Get(key)
+	if err != nil {
+		return fmt.Errorf("failed to init state: %w", err)
+	}
+	if len(bz) > 0 {
+		return nil
+	}
+
+	err = r.state.Set(key, []byte("{}"))
 	if err != nil {
 		return fmt.Errorf("failed to init state: %w", err)
 	}
